@@ -2530,3 +2530,40 @@ func c11WrapperReportsInnerAnswer(c *Check, rule string) {
 		c.Fail(rule, "wrappers", token.NoPos, "anchor unresolved: no limiter wraps another")
 	}
 }
+
+// ---- C02.R16 (= C01.R13): an attempt ends with the message gone from the spool or scheduled again.
+// tryDelivery has two ways to end: nothing is pending any more – the message is removed from the spool – or the record
+// is rewritten and the next attempt scheduled. An exit with neither (the removal deleted: a survivor of the mutant run
+// of round 12) leaves the finished message's files in the spool with the record of the previous attempt: after a
+// restart every recipient of that record is attempted again – delivered twice, or reported a second time.
+func c02AttemptEndsRemovedOrScheduled(c *Check, rule string) {
+	c.Rule(rule, "tryDelivery: every way out passes the removal of the message from the spool or the scheduling of the next attempt – a finished message never stays behind with the record of an earlier attempt (a restart would attempt its recipients again)", 1)
+	r := c.need(rule, queueRel, "Queue", "tryDelivery")
+	if r == nil {
+		return
+	}
+	info := r.Info
+	var ends []Pt
+	nRemove, nSched := 0, 0
+	for _, pt := range r.F.Points() {
+		if pt.Node() == nil {
+			continue
+		}
+		for _, call := range callsAt(pt.Node()) {
+			if isCall(info, call, "~/"+queueRel+".Queue.removeFromDisk") {
+				ends = append(ends, pt)
+				nRemove++
+			}
+			if isCall(info, call, "~/"+queueRel+".TimeWheel.Add") {
+				ends = append(ends, pt)
+				nSched++
+			}
+		}
+	}
+	if nSched == 0 {
+		c.Fail(rule, "tryDelivery:schedules", r.FI.Decl.Pos(), "undecided: tryDelivery never schedules a retry")
+		return
+	}
+	path, found := r.F.Reach(Query{From: r.Entry(), Inclusive: true, Target: r.F.IsNormalExit, Avoid: isPt(ends)})
+	c.Hold(rule, "tryDelivery:removed-or-scheduled", r.FI.Decl.Pos(), nRemove > 0 && !found, "an attempt can end without removing the message from the spool and without scheduling the next attempt ("+r.F.Describe(path)+"): the files stay behind with the record of the previous attempt – after a restart the recipients of that record are attempted again although they were delivered or reported")
+}
